@@ -45,10 +45,7 @@ def _literal_multiset(text, consts):
     """Sorted integer literals of a piece of Rust, file-level constants resolved to their values.
     Order carries no meaning for these ties (the comparisons themselves are extracted separately
     where they matter, or tied by the correspondence)."""
-    vals = list(exlib.int_literals(text))
-    for name, v in consts.items():
-        vals += [v] * len(re.findall(r"\b%s\b" % name, text))
-    return sorted(vals)
+    return exlib.significant_set(text, consts)
 
 
 def _value(tok, consts, what, rel):
